@@ -887,6 +887,7 @@ impl<'b> InnerBucket<'b> {
                             Ok(i) => i,
                             _ => panic!("child branch not found"),
                         };
+                        let mut merged_right = false;
                         if node.data.len() > 0 && branches.len() > 1 {
                             // add that child's data to a sibling node
                             let sibling_page = if index == 0 {
@@ -904,6 +905,11 @@ impl<'b> InnerBucket<'b> {
                             let mut sibling = sibling.borrow_mut();
                             // Copy this node's data over to it's sibling
                             sibling.data.merge(&mut node.data);
+                            if index == 0 {
+                                // The right sibling now starts where this node started.
+                                sibling.original_key = node.original_key.clone();
+                                merged_right = true;
+                            }
                             if !node.children.is_empty() {
                                 // Move all children nodes over to that sibling too
                                 for child in node.children.iter() {
@@ -918,6 +924,14 @@ impl<'b> InnerBucket<'b> {
                         node.free_page(tx_freelist);
                         node.deleted = true;
                         if let NodeData::Branches(branches) = &mut parent.data {
+                            if merged_right {
+                                // Keep the sibling's branch key a lower bound of the keys below it,
+                                // otherwise searches for the absorbed keys are routed to the wrong
+                                // child once this parent is itself merged into a left sibling.
+                                if let Some(key) = node.original_key.clone() {
+                                    branches[index + 1].set_key(key);
+                                }
+                            }
                             // remove the child from this node
                             branches.remove(index);
                         }
